@@ -106,6 +106,9 @@ def step0 (m : S) (op impl : String) : S × StepOut :=
   | ["monitor", a, g] => match a.toNat?, g.toNat? with
     | some a, some g => simple (.monitor a g) | _, _ => (m, { model := "bad-op" })
   | ["selfsend", a] => match a.toNat? with | some a => simple (.selfsend a) | none => (m, { model := "bad-op" })
+  | ["selflink", a, w] => match a.toNat?, w.toNat? with
+    | some a, some w => simple (.selflink a w) (isStarting m a)
+    | _, _ => (m, { model := "bad-op" })
   | ["spawnchild", a] => match a.toNat? with | some a => simple (.spawnChild a) | none => (m, { model := "bad-op" })
   | ["cast", a] => match a.toNat? with | some a => simple (.cast a) | none => (m, { model := "bad-op" })
   | ["call", a] => match a.toNat? with | some a => simple (.call a) | none => (m, { model := "bad-op" })
